@@ -385,6 +385,402 @@ def classify_random_exception(d, a, b):
     return "C02-random-raises"
 
 
+# ---------------------------------------------------------------------------------------------
+# doubles as data (AFModel/PriorDbl.lean): gate + exact rounding + clamp, CPython round, IEEE order
+
+
+def bits_same(a, b):
+    """bit-exact equality of two floats (NaNs equal to each other, -0.0 != 0.0)"""
+    return (a != a and b != b) or f2h(a) == f2h(b)
+
+
+def dbl_layer(ctx, d, p, cfg, m, m2, idx, raw, out, ign, case_u):
+    """`finishD` (the theorem-carrying model of gate/round/clamp on `Dbl`) against the real value_for"""
+    if not cfg.get("repaired", True):
+        return
+    for j, i in enumerate(idx):
+        for name, mm, real in (("value_for = finishD(message.value_for)", m, out[i]),
+                               ("value_for(ignore) = finishD(message.value_for)", m2, ign[i])):
+            fd = mm.get("finD", [])
+            if j >= len(fd):
+                ctx.disagree(name, case_u(i), num_or(real), "missing")
+                continue
+            got = out_of(fd[j])
+            if isinstance(got, str) or isinstance(real, str):
+                ok = got == real
+            else:
+                ok = bits_same(got, real) or (got == 0.0 and real == 0.0 and d["kind"] != "U")
+            if not ok:
+                ctx.disagree(name, case_u(i), num_or(real), num_or(got))
+            else:
+                ctx.hit("gateD:" + ("limit" if got == "limit" else "ok"))
+    if d["kind"] == "U" and hasattr(p, "_decimal_places"):
+        if int(p._decimal_places) != int(m.get("places", -1)):
+            ctx.disagree("_decimal_places = decimalPlaces", {"prior": canon_prior(d)}, int(p._decimal_places),
+                         m.get("places"))
+
+
+def round_tie(ctx, d, p, values):
+    """`pyRoundD n x` = CPython `round(x, n)` bit for bit, on the values this prior produced, on their
+    neighbours and on decimal ties; the order of `Dbl` = Python's `<=`, `<` on the same doubles"""
+    rng = ctx.rng
+    places = int(getattr(p, "_decimal_places", 14)) if d["kind"] == "U" else 14
+    xs = [v for v in values if isinstance(v, float)]
+    xs = rng.sample(xs, min(len(xs), 6))
+    pool = []
+    for x in xs:
+        pool.append((places, x))
+        if math.isfinite(x):
+            pool.append((places, math.nextafter(x, INF)))
+            pool.append((rng.choice([0, 1, 2, 13, 14, 15, 16, 17, 20, 29, 100, 323]), -x))
+    # decimal ties and near-ties: j + 1/2 units of the n-th place, and their neighbours
+    for _ in range(4):
+        n = rng.choice([0, 1, 2, 3, 14, 14, 15, places])
+        j = rng.randrange(-10 ** rng.randint(0, 15), 10 ** rng.randint(0, 15))
+        try:
+            t = (j + 0.5) / 10.0 ** n if n < 300 else (j + 0.5) * 10.0 ** -n
+        except OverflowError:
+            continue
+        pool.append((n, t))
+        pool.append((n, math.nextafter(t, rng.choice([-INF, INF]))))
+    pool.append((rng.choice([0, 14, 300, 323]), rng.choice([5e-324, -5e-324, 2.2250738585072014e-308,
+                                                             1.7976931348623157e308, -1.7976931348623157e308,
+                                                             INF, -INF, 0.0, -0.0, 2.0 ** 52 + 0.5, 2.0 ** 53])))
+    vals = [x for _, x in pool[:8]] + [d["lo"], d["hi"], 0.0, -0.0, math.nan, INF, -INF]
+    pairs = [(rng.choice(vals), rng.choice(vals)) for _ in range(10)]
+    m = ctx.lean.ask({"p": "C02", **wire_prior(d), "us": [],
+                      "rounds": [[n, f2h(x)] for n, x in pool], "cmp": [[f2h(a), f2h(b)] for a, b in pairs]})
+    if "driver_error" in m:
+        ctx.disagree("driver", {"prior": canon_prior(d)}, None, m.get("driver_error"))
+        return
+    for (n, x), mh in zip(pool, m["rounds"]):
+        try:
+            want = round(x, n)
+        except OverflowError:
+            want = "exc:OverflowError"
+        got = h2f(mh)
+        if isinstance(want, str) or not bits_same(got, want):
+            ctx.disagree("round(x, n) = pyRoundD n x", {"x": num(x), "n": n}, num_or(want), num(got))
+        else:
+            ctx.hit("round-tie")
+        # the theorem's statement evaluated on the real rounding: finite stays finite
+        if not isinstance(want, str) and math.isfinite(x) and not math.isfinite(want):
+            ctx.disagree("round(x, n) finite", {"x": num(x), "n": n}, num(want), num(got))
+    # order
+    for (a, b), mc in zip(pairs, m["cmp"]):
+        if [a <= b, a < b] != [bool(mc[0]), bool(mc[1])]:
+            ctx.disagree("Dbl order = float order", {"a": num(a), "b": num(b)}, [a <= b, a < b], mc)
+    # monotonicity of the real rounding on the sorted sample (the theorem's statement on the real function)
+    by_n = {}
+    for n, x in pool:
+        if x == x:
+            by_n.setdefault(n, []).append(x)
+    for n, lst in by_n.items():
+        lst.sort()
+        rs = [round(x, n) for x in lst]
+        for x0, x1, r0, r1 in zip(lst, lst[1:], rs, rs[1:]):
+            if r0 > r1:
+                ctx.fail("C02-round-not-monotone", f"round({x0!r}, {n}) = {r0!r} > round({x1!r}, {n}) = {r1!r}",
+                         {"prior": canon_prior(d), "units": [], "seeds": [], "round": [n, num(x0), num(x1)]})
+
+
+def unit_limit_law(ctx, d, a, b, ratio_overflow):
+    """theorem `unit_limits_uniform` / `unitLimits_logUniform` on the real code: the unit limits of the two
+    uniform families are the clamp epsilon of transform.ndtri and its complement (not 0 and 1)"""
+    if d["kind"] not in "UL" or ratio_overflow or isinstance(a, str) or isinstance(b, str):
+        return
+    if a != a or b != b or not math.isfinite(d["hi"] - d["lo"]):
+        ctx.hit("unit-limit-law-skipped")
+        return
+    ok_a = abs(a - 1e-14) <= 1e-22
+    # log-uniform: (log10 U - log10 L) / log10(U / L) is 1 only up to rounding; below 1 it is not clamped
+    want_b = 1 - 1e-14
+    if d["kind"] == "L":
+        # on doubles the log-coordinate hypothesis of the theorem (log10(U/L) = log10 U - log10 L) holds only
+        # up to rounding: the coordinate of the upper limit is t ~ 1, clamped only if 1 <= t <= 1 + eps
+        t = float((np.log10(d["hi"]) - np.log10(d["lo"])) / np.log10(d["hi"] / d["lo"]))
+        if not (t <= 1 + 1e-14):
+            ctx.hit("unit-limit-law-skipped")
+            return
+        want_b = t if t < 1 else 1 - 1e-14
+    ok_b = abs(b - want_b) <= 4e-16
+    if ok_a and ok_b:
+        ctx.hit("unit-limit-law")
+    else:
+        ctx.disagree("unit limits of the uniform families = (eps, 1 - eps)", {"prior": canon_prior(d)},
+                     [num(a), num(b)], [1e-14, num(want_b)])
+
+
+# ---------------------------------------------------------------------------------------------
+# less-travelled routes to a prior: the same bit-exact gate comparison on priors that were not built by
+# their constructor call in `build`
+
+
+TYPE_KIND = {"Uniform": "U", "LogUniform": "L", "Gaussian": "G", "LogGaussian": "N"}
+
+
+def desc_of_dict(pd):
+    """descriptor from a prior dict / config entry (what the route was *asked* to build)"""
+    k = TYPE_KIND[pd["type"]]
+    d = {"kind": k}
+    lo_default, hi_default = {"U": (0.0, 1.0), "L": (1e-6, 1.0), "G": (-INF, INF), "N": (0.0, INF)}[k]
+    d["lo"] = float(pd.get("lower_limit", lo_default))
+    d["hi"] = float(pd.get("upper_limit", hi_default))
+    if k in "GN":
+        d["mean"], d["sigma"] = float(pd["mean"]), float(pd["sigma"])
+    return d
+
+
+def gate_tie(ctx, route, q, dq, cfg, units):
+    """q was obtained by `route` and should be the prior described by dq: its attributes, its raw quantile
+    (against a freshly constructed prior, same arithmetic -> same bits), and value_for = finish / finishD of
+    its raw value with dq's limits (the model), with and without ignore_prior_limits; the property itself on
+    the outputs (inside dq's limits or the limit exception)"""
+    case = {"prior": canon_prior(dq), "units": [num(u) for u in units], "seeds": [], "route": route}
+    try:
+        fresh = build(dq)
+    except Exception as e:  # noqa
+        ctx.hit("route-fresh-unavailable:" + type(e).__name__)
+        return
+    attrs = [("lower_limit", dq["lo"]), ("upper_limit", dq["hi"])]
+    if dq["kind"] in "GN":
+        attrs += [("mean", dq["mean"]), ("sigma", dq["sigma"])]
+    for name, want in attrs:
+        got = call(lambda: getattr(q, name))
+        if isinstance(got, str) or not bits_same(got, float(want)):
+            ctx.fail("C02-route-parameters", f"prior obtained by {route}: {name} = {got!r}, expected {want!r}", case)
+            return
+    if type(q) is not type(fresh):
+        ctx.fail("C02-route-parameters", f"prior obtained by {route} is a {type(q).__name__}, expected "
+                 f"{type(fresh).__name__}", case)
+        return
+    raw = [call(q.message.value_for, u) for u in units]
+    raw_f = [call(fresh.message.value_for, u) for u in units]
+    out = [call(q.value_for, u) for u in units]
+    ign = [call(q.value_for, u, ignore_prior_limits=True) for u in units]
+    idx = [i for i in range(len(units)) if not isinstance(raw[i], str)]
+    for i in range(len(units)):
+        if isinstance(raw[i], str) != isinstance(raw_f[i], str) or \
+                (not isinstance(raw[i], str) and not bits_same(raw[i], raw_f[i])):
+            ctx.fail("C02-route-quantile", f"prior obtained by {route}: message.value_for({units[i]!r}) = {raw[i]!r}, "
+                     f"a freshly constructed prior with the same parameters gives {raw_f[i]!r}", case)
+            return
+    wp = wire_prior(dq)
+    m = ctx.lean.ask({"p": "C02", "cfg": cfg, "ignore": False, **wp, "us": [], "raws": [f2h(raw[i]) for i in idx]})
+    m2 = ctx.lean.ask({"p": "C02", "cfg": cfg, "ignore": True, **wp, "us": [], "raws": [f2h(raw[i]) for i in idx]})
+    if "driver_error" in m or "driver_error" in m2:
+        ctx.disagree("driver", case, None, m.get("driver_error") or m2.get("driver_error"))
+        return
+    L, U = dq["lo"], dq["hi"]
+    for j, i in enumerate(idx):
+        for name, mm, real in (("value_for", m, out[i]), ("value_for(ignore)", m2, ign[i])):
+            fin = out_of(mm["fin"][j])
+            ok = same(fin, real)
+            if ok and cfg.get("repaired", True):
+                fd = out_of(mm["finD"][j])
+                ok = (fd == real) if (isinstance(fd, str) or isinstance(real, str)) else \
+                    (bits_same(fd, real) or (fd == 0.0 and real == 0.0))
+            if not ok:
+                ctx.disagree(f"{route}: {name} = finish(message.value_for)", case, num_or(real), num_or(fin))
+        o = out[i]
+        if not isinstance(o, str) and not (L <= o <= U):
+            ctx.fail("C02-out-of-limits-returned", f"prior obtained by {route}: value_for({units[i]!r}) returned {o!r}, "
+                     f"outside [{L!r}, {U!r}]", case)
+        if o == "limit" and not isinstance(ign[i], str) and L <= ign[i] <= U and L <= raw[i] <= U:
+            ctx.fail("C02-spurious-limit-exception", f"prior obtained by {route}: value_for({units[i]!r}) raised although "
+                     f"the mapped value {ign[i]!r} is inside [{L!r}, {U!r}]", case)
+    ctx.hit("route:" + route.split("(")[0])
+
+
+def route_tie(ctx, d, p, cfg):
+    """routes from an existing prior: dict round trip, copies, pickling, with_limits class methods"""
+    import copy as _copy
+    import pickle as _pickle
+    rng = ctx.rng
+    units = [0.0, 1.0, 0.5, rng.random(), rng.random(), 2.0 ** -rng.randint(1, 60)]
+    routes = []
+
+    def attempt(name, f, dq, must=True):
+        try:
+            routes.append((name, f(), dq))
+        except Exception as e:  # noqa
+            ctx.hit("route-unavailable:" + name + ":" + type(e).__name__)
+            if must:
+                # these routes work for every constructible prior on the unchanged code
+                ctx.disagree("route available: " + name, {"prior": canon_prior(d), "route": name},
+                             "exc:" + type(e).__name__, "prior")
+
+    if rng.random() < 0.5:
+        attempt("from_dict(dict())", lambda: af.Prior.from_dict(p.dict()), d)
+    else:
+        attempt("from_dict(json)", lambda: af.Prior.from_dict(json.loads(json.dumps(p.dict()))), d)
+    which = rng.choice(["deepcopy", "pickle", "new", "tree"])
+    if which == "deepcopy":
+        attempt("deepcopy", lambda: _copy.deepcopy(p), d)
+    elif which == "pickle":
+        attempt("pickle", lambda: _pickle.loads(_pickle.dumps(p)), d)
+    elif which == "new":
+        attempt("new", lambda: p.new().new(), d)
+    elif hasattr(type(p), "tree_flatten"):
+        attempt("tree_unflatten", lambda: type(p).tree_unflatten(*reversed(p.tree_flatten())), d, must=False)
+    k = d["kind"]
+    lo, hi = d["lo"], d["hi"]
+    if k == "G" and math.isfinite(lo) and math.isfinite(hi) and math.isfinite(hi - lo) and hi - lo > 0:
+        attempt("GaussianPrior.with_limits", lambda: p.with_limits(lo, hi),
+                {"kind": "G", "mean": (lo + hi) / 2, "sigma": hi - lo, "lo": -INF, "hi": INF})
+    if k == "L":
+        lo2 = lo * rng.choice([1.0, 1.5, 1e-9]) if rng.random() < 0.7 else 0.0
+        if max(0.000001, lo2) < hi:
+            attempt("LogUniformPrior.with_limits", lambda: p.with_limits(lo2, hi),
+                    {"kind": "L", "lo": max(0.000001, lo2), "hi": hi})
+    if k == "U" and math.isfinite(hi - lo):
+        a2, b2 = sorted([lo + rng.uniform(-0.5, 1.0) * (hi - lo), lo + rng.uniform(0.0, 1.5) * (hi - lo)])
+        if max(a2, lo) < min(b2, hi):
+            attempt("UniformPrior.with_limits", lambda: p.with_limits(a2, b2),
+                    {"kind": "U", "lo": max(a2, lo), "hi": min(b2, hi)})
+    for name, q, dq in routes:
+        if isinstance(q, af.Prior):
+            gate_tie(ctx, name, q, dq, cfg, units)
+        else:
+            ctx.fail("C02-route-parameters", f"{name} did not return a prior: {q!r}", {"prior": canon_prior(d), "route": name})
+
+
+def config_route(ctx, cfg):
+    """priors created from the config defaults (af.Model(cls)): built from the YAML entry, compared with it"""
+    import vlib
+    from autoconf import conf
+    rng = ctx.rng
+    classes = [af.ex.Gaussian, af.ex.Exponential] + [getattr(vlib, n) for n in ("P1", "P2", "P3") if hasattr(vlib, n)]
+    for cls in classes:
+        try:
+            model = af.Model(cls)
+            tuples = list(model.prior_tuples)
+        except Exception as e:  # noqa
+            ctx.hit("route-unavailable:config:" + type(e).__name__)
+            continue
+        for name, q in tuples:
+            try:
+                entry = conf.instance.prior_config.for_class_and_suffix_path(cls, [name])
+                dq = desc_of_dict(entry)
+            except Exception as e:  # noqa
+                ctx.hit("route-unavailable:config-entry:" + type(e).__name__)
+                continue
+            units = [0.0, 1.0, 0.5, rng.random(), rng.random()]
+            gate_tie(ctx, f"config({cls.__name__}.{name})", q, dq, cfg, units)
+
+
+def arith_tie(ctx, d, p, units):
+    """IEEE arithmetic on doubles as data (AFModel/DblArith.lean) against the real floats: the four operations on
+    sampled pairs, and the arithmetic of the transform stacks around the special functions -
+    `1 - 2.0 * (1.0 - u)`, `mean + (sigma * sqrt(2) * inv)`, `t * (U - L) + L` - against the prior's own
+    `message.value_for`, given scipy's intermediate values (`erfinv`, `ndtr` called the way the code calls
+    them). Bit-exact on the unchanged code; a difference of a few ulp of the operands (a re-association of
+    the arithmetic) is counted but is not a disagreement."""
+    import autofit.messages.normal as _normal
+    import autofit.messages.transform as _transform
+    rng = ctx.rng
+    k = d["kind"]
+    us = rng.sample(units, min(4, len(units)))
+    rows, expect = [], []
+    f64 = np.float64
+
+    def add_row(op, a, b=0.0, c=0.0, want=None, scale=0.0, what=None):
+        rows.append([op, f2h(a), f2h(b), f2h(c)])
+        expect.append((what or op, (a, b, c), want, scale))
+
+    pool = [d["lo"], d["hi"], d.get("mean", 0.0), d.get("sigma", 1.0), 0.0, -0.0, 1.0, 2.0, INF, -INF, math.nan,
+            5e-324, -5e-324, 1.7976931348623157e308, 2.2250738585072014e-308] + us + \
+           [rng.uniform(-1, 1) * 10.0 ** rng.randint(-320, 308) for _ in range(4)]
+    with np.errstate(all="ignore"):
+        for _ in range(8):
+            a, b = rng.choice(pool), rng.choice(pool)
+            if rng.random() < 0.3:
+                b = a * rng.choice([1.0, -1.0, 1 + 2.0 ** -52, 0.5, 3.0])
+            op = rng.choice(["add", "sub", "mul", "div"])
+            want = {"add": f64(a) + f64(b), "sub": f64(a) - f64(b), "mul": f64(a) * f64(b),
+                    "div": f64(a) / f64(b)}[op]
+            add_row(op, a, b, want=float(want))
+        for u in us:
+            arg = 1 - 2.0 * (1.0 - u)
+            add_row("argd", u, want=arg)
+            try:
+                inv = float(_normal.erfinv(arg))
+            except Exception:  # noqa
+                continue
+            real = call(p.message.value_for, u)
+            if isinstance(real, str):
+                continue
+            if k in "GN" and math.isfinite(d["mean"]) and d["sigma"] > 0:
+                tag = "message.value_for = rawGaussianD(erfinv)" if k == "G" else "message.value_for = exp(rawGaussianD(erfinv))"
+                add_row("rawg", d["mean"], d["sigma"], inv, want=real,
+                        scale=max(abs(d["mean"]), abs(d["sigma"] * 1.5 * inv) if math.isfinite(inv) else 0.0), what=tag)
+            elif k == "U":
+                z = float(0.0 + (1.0 * np.sqrt(2) * inv))
+                add_row("rawg", 0.0, 1.0, inv, want=z, scale=abs(z) if math.isfinite(z) else 0.0,
+                        what="NormalMessage(0,1).value_for = rawGaussianD")
+                t = float(_transform.ndtr(z))
+                add_row("rawu", t, d["lo"], d["hi"], want=real, scale=max(abs(d["lo"]), abs(d["hi"])),
+                        what="message.value_for = rawUniformD(ndtr)")
+            elif k == "L" and math.isfinite(d["hi"] / d["lo"]):
+                z = float(0.0 + (1.0 * np.sqrt(2) * inv))
+                add_row("rawg", 0.0, 1.0, inv, want=z, scale=abs(z) if math.isfinite(z) else 0.0,
+                        what="NormalMessage(0,1).value_for = rawGaussianD")
+                t = float(_transform.ndtr(z))
+                scale_, shift_ = float(np.log10(d["hi"] / d["lo"])), float(np.log10(d["lo"]))
+                prod = float(f64(t) * f64(scale_))
+                add_row("mul", t, scale_, want=prod)
+                add_row("add", prod, shift_, want=real, scale=max(abs(prod), abs(shift_)),
+                        what="message.value_for = 10**(t*scale+shift)")
+    m = ctx.lean.ask({"p": "C02", **wire_prior(d), "us": [], "arith": rows})
+    if "driver_error" in m:
+        ctx.disagree("driver", {"prior": canon_prior(d)}, None, m.get("driver_error"))
+        return
+    for (what, args, want, scale), mh in zip(expect, m["arith"]):
+        got = h2f(mh)
+        slack = 0.0
+        if what.endswith("exp(rawGaussianD(erfinv))"):
+            # exp turns an absolute difference of its argument into a relative one of the value
+            arg_slack = 4 * ulp(max(scale, abs(got))) if math.isfinite(got) else 0.0
+            with np.errstate(all="ignore"):
+                got = float(np.exp(got))
+            slack = abs(want) * arg_slack * 1.01 if math.isfinite(want) else 0.0
+            scale = 0.0
+        if what.endswith("10**(t*scale+shift)"):
+            arg_slack = 4 * ulp(max(scale, abs(got))) if math.isfinite(got) else 0.0
+            with np.errstate(all="ignore"):
+                got = float(10 ** np.float64(got))
+            slack = abs(want) * arg_slack * 2.4 if math.isfinite(want) else 0.0
+            scale = 0.0
+        if bits_same(got, want) or (got == 0.0 and want == 0.0 and what.startswith("message")):
+            ctx.hit("arith:" + what.split("(")[0].split(" ")[0])
+            continue
+        basic = what in ("add", "sub", "mul", "div", "argd")
+        if not basic and got == got and want == want and math.isfinite(got) and math.isfinite(want) \
+                and abs(got - want) <= 4 * ulp(max(scale, abs(want))) + slack:
+            ctx.hit("arith-reassociated:" + what.split(" ")[0])
+            continue
+        ctx.disagree("doubles as data: " + what, {"prior": canon_prior(d), "args": [num(x) for x in args]},
+                     num(want), num(got))
+
+
+def rand_dbl_tie(ctx, d, rows, mr):
+    """`randomUnitD` (the generic randomUnit at Dbl, IEEE arithmetic as data) = Python's own
+    `max(lo, a) + (min(hi, b) - max(lo, a)) * r` (the arithmetic of random.uniform) bit for bit, = the Float run"""
+    for row, mh, dh in zip(rows, mr.get("rand", []), mr.get("randD", ["missing"] * len(rows))):
+        lo_u, hi_u, a, b, r01 = (h2f(x) for x in row)
+        x, y = max(lo_u, a), min(hi_u, b)
+        want = x + (y - x) * r01
+        got = h2f(dh) if dh != "missing" else math.nan
+        if dh == "missing" or not bits_same(got, want) or not bits_same(got, h2f(mh)):
+            ctx.disagree("randomUnitD = random.uniform arithmetic", {"prior": canon_prior(d), "row": [num(h2f(v)) for v in row]},
+                         num(want), [num(got), num(h2f(mh))])
+        else:
+            ctx.hit("randD")
+        # theorem `randomUnitD_ge_lower` on the real arithmetic: never below the lower end
+        if x == x and y == y and x <= y and 0.0 <= r01 and math.isfinite(y - x) and not (want >= x):
+            ctx.disagree("random.uniform >= lower end", {"row": [num(h2f(v)) for v in row]}, num(want), num(x))
+
+
 def one_prior(ctx, d, units=None, seeds=None, cfg=None, label="gen", mp_queue=None):
     cfg = cfg or {"repaired": True}
     rng = ctx.rng
@@ -458,6 +854,10 @@ def one_prior(ctx, d, units=None, seeds=None, cfg=None, label="gen", mp_queue=No
             ctx.hit("gate:" + ("limit" if fin == "limit" else "ok"))
         if not same(fin_ign, ign[i]):
             ctx.disagree("value_for(ignore) = finish(message.value_for)", case_u(i), num_or(ign[i]), num_or(fin_ign))
+
+    dbl_layer(ctx, d, p, cfg, m, m2, idx, raw, out, ign, case_u)
+    arith_tie(ctx, d, p, units)
+    round_tie(ctx, d, p, [raw[i] for i in idx] + [o for o in out if isinstance(o, float)])
 
     # ---- correspondence (tolerance): transform stack on Float
     for j, i in enumerate(idx):
@@ -576,6 +976,7 @@ def one_prior(ctx, d, units=None, seeds=None, cfg=None, label="gen", mp_queue=No
 
     # ---- random draws
     a, b = call(lambda: p.lower_unit_limit), call(lambda: p.upper_unit_limit)
+    unit_limit_law(ctx, d, a, b, ratio_overflow)
     if seeds is None:
         seeds = [rng.randrange(2 ** 31) for _ in range(6)]
     rows = []
@@ -593,6 +994,7 @@ def one_prior(ctx, d, units=None, seeds=None, cfg=None, label="gen", mp_queue=No
         ctx.fail("C02-unexpected-exception", f"unit limits raised {a} {b}", case0)
     else:
         mr = ctx.lean.ask({"p": "C02", "cfg": cfg, **wp, "us": [], "rand": rows})
+        rand_dbl_tie(ctx, d, rows, mr)
         # model's own unit limits vs the implementation's
         for name, real_v, mod_h in (("lower_unit_limit", a, mr["a"]), ("upper_unit_limit", b, mr["b"])):
             mv = h2f(mod_h)
@@ -716,6 +1118,8 @@ def one_prior(ctx, d, units=None, seeds=None, cfg=None, label="gen", mp_queue=No
                      {"prior": canon_prior(d), "derived": canon_prior(d2), "how": how, "units": [num(u) for u in probes]},
                      {"got": got, "want": want})
 
+    if label != "gen" or rng.random() < 0.4:
+        route_tie(ctx, d, p, cfg)
     case0["seeds"] = [list(s) for s in sub]
     ctx.case(case0, nontrivial=n_values >= 3,
              sample={"prior": canon_prior(d), "units": [num(u) for u in units[:6]],
@@ -848,6 +1252,7 @@ def run(ctx):
             d, units, seeds = load_case(c)
             d["stream"] = "corpus"
             one_prior(ctx, d, units, seeds if seeds else None, cfg=cfg, label=f.name)
+        config_route(ctx, cfg)
         n = ctx.n(500, 10000)
         mp_queue = [] if ctx.tier == "thorough" else None
         recent = []
